@@ -190,7 +190,7 @@ def minify(
     allow_rename_locals(module, rename_locals, preserve_locals)
     allow_rename_globals(module, rename_globals, preserve_globals)
 
-    if hoist_literals:
+    if hoist_literals and not module.tainted:
         rename_literals(module)
 
     rename(module, prefix_globals=not rename_globals, preserved_globals=preserve_globals)
